@@ -7,6 +7,7 @@
    Refutations about renderings that are no longer in /repo: coq/theories/History/C04_history.v. *)
 From Verif Require Import Wire Walker WalkerSafe WalkerSafeThm WalkerSafeCpp WalkerSafeCppThm WalkerSafePrims Gen_C04 Gen_C01
                           CPrims CPrimsThm CppPrims CppPrimsThm.
+From Coq Require Import Lia.
 Local Open Scope nat_scope.
 
 (* ---------------------------------------------------------------------------------------------------------------------------------
@@ -160,18 +161,22 @@ Theorem c04_cpp_des_prior_indep : forall t prior1 prior2 buf,
 Proof. exact (des_prior_indep (cpp_cfg tpl_cpp_subspan_clamped)). Qed.
 Print Assumptions c04_cpp_des_prior_indep.
 
-(* any_bitspan::subspan() forms data_.data() + offset_bytes unclamped: F-CPP-PTR-PAST-END (current code) *)
-Theorem c04_cpp_des_ptr_in_bounds_refuted :
-  exists t prior buf capB, wf_ty t = true /\ length buf = 8 * capB /\
-    forallb (ptr_ok capB) (snd (walk_des_safe (cpp_cfg false) t prior buf)) = false.
-Proof. exact cpp_des_ptr_in_bounds_refuted. Qed.
-Print Assumptions c04_cpp_des_ptr_in_bounds_refuted.
+(* the pointer any_bitspan::subspan() hands to the nested span, as scanned from the support header, IS what the model's cpp_cfg
+   emits (for every size and offset; proved here, the scanner only proposes the boolean) *)
+Theorem c04_cpp_subspan_ptr_matches_model : forall size offb,
+  seval tpl_cpp_subspan_ptr size offb = if tpl_cpp_subspan_clamped then Nat.min offb size else offb.
+Proof.
+  intros size offb. unfold tpl_cpp_subspan_ptr, tpl_cpp_subspan_clamped. cbn [seval].
+  repeat match goal with |- context [if ?a <? ?b then _ else _] => destruct (Nat.ltb_spec a b) end; lia.
+Qed.
+Print Assumptions c04_cpp_subspan_ptr_matches_model.
 
-(* ... and in bounds for every type and buffer as soon as subspan() clamps the pointer (the proposed patch) *)
-Theorem c04_cpp_des_ptr_in_bounds_partial : forall capB t prior buf, wf_ty t = true -> length buf = 8 * capB ->
-  forallb (ptr_ok capB) (snd (walk_des_safe (cpp_cfg true) t prior buf)) = true.
+(* every pointer handed to a nested C++ deserializer lies in [data, data + size] (full statement since 939fc9d; the refutation of the
+   older `data_.data() + offset_bytes` is in History/C04_history.v) *)
+Theorem c04_cpp_des_ptr_in_bounds : forall capB t prior buf, wf_ty t = true -> length buf = 8 * capB ->
+  forallb (ptr_ok capB) (snd (walk_des_safe (cpp_cfg tpl_cpp_subspan_clamped) t prior buf)) = true.
 Proof. exact cpp_des_ptr_in_bounds. Qed.
-Print Assumptions c04_cpp_des_ptr_in_bounds_partial.
+Print Assumptions c04_cpp_des_ptr_in_bounds.
 
 (* vector: EVERY path through the scanned statements of _deserialize_variable_length_array replaces the contents by the decoded
    elements, whatever the vector held, allocates only after the length check and never pushes an empty temporary *)
